@@ -11,7 +11,7 @@ from .common import Verdict, outcome_of_exception
 from . import qsyntax
 
 ID = "C14"
-GEN = []
+GEN = ["Compose"]
 RULE = ("lists of 1..5 pipelines with arbitrary priorities (incl. equal), 0..2 transformation items, 0..2 post-processing "
         "items, 0..2 finalizers and 0..2 variables each; x every bracketing shape of '+' (random) / every permutation of the "
         "resolver's argument list (random, resolved twice on the same objects) / backend+user+format; distinct = distinct "
